@@ -10,14 +10,15 @@ import (
 )
 
 type Effects struct {
-	heap   map[string]string // array name -> element sort
+	heap   map[string]string // array name -> element sort: may be written at any address
+	fheap  map[string]string // arrays written only at addresses allocated during the effect (fresh objects)
 	ghost  map[string]bool
 	locals map[*ssa.Alloc]bool
 	iters  []ssa.Value
 }
 
 func newEffects() *Effects {
-	return &Effects{heap: map[string]string{}, ghost: map[string]bool{}, locals: map[*ssa.Alloc]bool{}}
+	return &Effects{heap: map[string]string{}, fheap: map[string]string{}, ghost: map[string]bool{}, locals: map[*ssa.Alloc]bool{}}
 }
 
 func (a *Effects) add(b *Effects) bool {
@@ -25,6 +26,12 @@ func (a *Effects) add(b *Effects) bool {
 	for k, v := range b.heap {
 		if _, ok := a.heap[k]; !ok {
 			a.heap[k] = v
+			ch = true
+		}
+	}
+	for k, v := range b.fheap {
+		if _, ok := a.fheap[k]; !ok {
+			a.fheap[k] = v
 			ch = true
 		}
 	}
@@ -86,10 +93,17 @@ func rootAlloc(v ssa.Value) *ssa.Alloc {
 }
 
 // storeTargets: arrays written by a store of a value of type vt through addr.
-func (m *Model) storeTargets(addr ssa.Value, out *Effects) {
-	if a := rootAlloc(addr); a != nil && !a.Heap {
-		out.locals[a] = true
-		return
+func (m *Model) storeTargets(addr ssa.Value, out *Effects, scope map[*ssa.BasicBlock]bool) {
+	target := out.heap
+	if a := rootAlloc(addr); a != nil {
+		if !a.Heap {
+			out.locals[a] = true
+			return
+		}
+		// the object was allocated by this very function (within the region considered): a write to a fresh address
+		if scope == nil || scope[a.Block()] {
+			target = out.fheap
+		}
 	}
 	pt, ok := addr.Type().Underlying().(*types.Pointer)
 	if !ok {
@@ -100,11 +114,11 @@ func (m *Model) storeTargets(addr ssa.Value, out *Effects) {
 		st := fa.X.Type().Underlying().(*types.Pointer).Elem()
 		si := m.structOf(st)
 		if si != nil {
-			out.heap["H$"+si.sort[2:]+"$"+si.st.Field(fa.Field).Name()] = m.sortOf(el)
+			target["H$"+si.sort[2:]+"$"+si.st.Field(fa.Field).Name()] = m.sortOf(el)
 			return
 		}
 	}
-	m.cellLeaves(el, out.heap)
+	m.cellLeaves(el, target)
 }
 
 func (m *Model) mapArrays(t types.Type, out map[string]string) {
@@ -115,12 +129,16 @@ func (m *Model) mapArrays(t types.Type, out map[string]string) {
 }
 
 // instrEffects adds the direct and callee effects of one instruction.
-func (m *Model) instrEffects(ins ssa.Instruction, out *Effects) {
+func (m *Model) instrEffects(ins ssa.Instruction, out *Effects, scope map[*ssa.BasicBlock]bool) {
 	switch x := ins.(type) {
 	case *ssa.Store:
-		m.storeTargets(x.Addr, out)
+		m.storeTargets(x.Addr, out, scope)
 	case *ssa.MapUpdate:
-		m.mapArrays(x.Map.Type(), out.heap)
+		if mm, ok := x.Map.(*ssa.MakeMap); ok && (scope == nil || scope[mm.Block()]) {
+			m.mapArrays(x.Map.Type(), out.fheap)
+		} else {
+			m.mapArrays(x.Map.Type(), out.heap)
+		}
 	case *ssa.Alloc:
 		if x.Heap {
 			out.ghost["$alloc"] = true
@@ -166,7 +184,27 @@ func (m *Model) callEffects(c *ssa.CallCommon, out *Effects) {
 	}
 	out.ghost["$alloc"] = true
 	for _, callee := range m.callees(c) {
-		out.add(m.funcEffects(callee))
+		ce := m.funcEffects(callee)
+		if c.StaticCallee() != nil && m.spec != nil {
+			if ct, ok := m.spec.Contracts[m.fnName[callee]]; ok && ct.HasMod && len(ct.Modifies) == 0 {
+				// `modifies nothing` (proved for the callee, or trusted): whatever it writes is fresh
+				for k, v := range ce.heap {
+					if _, ok := out.fheap[k]; !ok {
+						out.fheap[k] = v
+					}
+				}
+				for k, v := range ce.fheap {
+					if _, ok := out.fheap[k]; !ok {
+						out.fheap[k] = v
+					}
+				}
+				for k := range ce.ghost {
+					out.ghost[k] = true
+				}
+				continue
+			}
+		}
+		out.add(ce)
 	}
 }
 
@@ -236,7 +274,7 @@ func (m *Model) computeAllEffects() {
 			tmp := newEffects()
 			for _, b := range f.Blocks {
 				for _, ins := range b.Instrs {
-					m.instrEffects(ins, tmp)
+					m.instrEffects(ins, tmp, nil)
 				}
 			}
 			if ef.add(tmp) {
@@ -262,11 +300,23 @@ func (m *Model) externalEffects(f *ssa.Function, ef *Effects) {
 	}
 }
 
+// allHeap: every array the effect may touch (general and fresh-only)
+func (ef *Effects) allHeap() map[string]string {
+	out := map[string]string{}
+	for k, v := range ef.fheap {
+		out[k] = v
+	}
+	for k, v := range ef.heap {
+		out[k] = v
+	}
+	return out
+}
+
 func (e *Enc) loopEffects(fc *fctx, l *loopInfo) *Effects {
 	ef := newEffects()
 	for b := range l.blocks {
 		for _, ins := range b.Instrs {
-			e.m.instrEffects(ins, ef)
+			e.m.instrEffects(ins, ef, l.blocks)
 		}
 	}
 	return ef
